@@ -80,6 +80,8 @@ static uint64_t pqh[MAXP + 1][MAXT];    static int npqh[MAXP + 1];
 static uint64_t allpqh[MAXOBJ * 2];     static int nallpqh;
 static uint64_t amnt[MAXP + 1];          /* progress slot of a buffer call */
 static int in_yield[MAXP + 1];           /* set while the process is inside cmb_process_yield() */
+static int cwait_pred[MAXP + 1];         /* predicate id while the process is inside cmb_condition_wait(), else -1 */
+static int nsub;                         /* number of guards the condition observes */
 static int running_pid;                  /* pid whose code is executing, 0 = dispatcher */
 
 static void crash_handler(int sig)
@@ -255,6 +257,20 @@ static bool cond_demand(const struct cmb_condition *c, const struct cmb_process 
     return v;
 }
 
+/* the harness owns the predicates: their truth for every process inside cmb_condition_wait(), as of now
+ * (released = a resource about to be released, which predicate 2 must already see as free) */
+static void log_truths_with(long released)
+{
+    for (int i = 1; i <= P.np; i++) {
+        if (cwait_pred[i] >= 0) {
+            bool v = pred_eval(cwait_pred[i]);
+            if (cwait_pred[i] == 2 && released == 1) v = true;
+            fprintf(out, "{\"e\":\"Truth\",\"p\":%d,\"pred\":%d,\"v\":%s}\n", i, cwait_pred[i], v ? "true" : "false");
+        }
+    }
+}
+static void log_truths(void) { log_truths_with(0); }
+
 /* ---------- weak references to documented entry points that may be missing */
 extern bool cmb_condition_cancel(struct cmb_condition *cvp, struct cmb_process *pp) __attribute__((weak));
 extern bool cmb_condition_remove(struct cmb_condition *cvp, const struct cmb_process *pp) __attribute__((weak));
@@ -376,7 +392,9 @@ static bool exec_instr(int me, const struct instr *in)
     }
     else if (is_op(in, "cwait")) {
         log_call(me, in);
+        cwait_pred[me] = (int)a0;
         const int64_t sig = cmb_condition_wait(cond, cond_demand, (void *)(intptr_t)a0);
+        cwait_pred[me] = -1;
         log_ret(me, in, (long)sig, 0, 0);
     }
     /* ---- non-blocking calls */
@@ -437,6 +455,11 @@ static bool exec_instr(int me, const struct instr *in)
     }
     else if (is_op(in, "rel")) {
         if (me == 0 || a0 < 1 || a0 > P.nres || cmb_resource_held_by_process(res[a0], self) == 0u) { log_skip(me, in, "not-holder"); return true; }
+        if (nsub > 0) {
+            /* the state as it will be when the guard (and the observing condition) is signalled */
+            fprintf(out, "{\"e\":\"FwdBegin\",\"p\":%d,\"g\":%ld,\"t\":%ld}\n", me, a0, now());
+            log_truths_with(a0);
+        }
         cmb_resource_release(res[a0]);
         log_do(me, in, 0, 0);
     }
@@ -457,6 +480,7 @@ static bool exec_instr(int me, const struct instr *in)
     }
     else if (is_op(in, "csig")) {
         fprintf(out, "{\"e\":\"CSigBegin\",\"p\":%d,\"t\":%ld}\n", me, now());
+        log_truths();
         const bool r = cmb_condition_signal(cond);
         log_do(me, in, r ? 1 : 0, 0);
     }
@@ -473,6 +497,7 @@ static bool exec_instr(int me, const struct instr *in)
     else if (is_op(in, "csub")) {
         /* subscribe the condition to the guard of resource 1 / the buffer front guard */
         cmb_condition_subscribe(cond, a0 == 0 ? &(res[1]->guard) : &(buf->front_guard));
+        nsub++;
         log_do(me, in, 0, 0);
     }
     else if (is_op(in, "setflag")) {
@@ -529,6 +554,7 @@ static void *procfn(struct cmb_process *me_p, void *ctx)
     fprintf(out, "{\"e\":\"Enter\",\"p\":%d,\"self_ok\":%s,\"naw\":%d,\"nhold\":%d,\"t\":%ld}\n", me,
             (me_p == proc[me]) ? "true" : "false", slist_len(&(me_p->awaits)), slist_len(&(me_p->resources)), now());
     ntimers[me] = 0;
+    cwait_pred[me] = -1;
     snap();
     for (int k = 0; k < P.p[me].n; k++) {
         const struct instr *in = &(P.p[me].code[k]);
@@ -635,6 +661,8 @@ static void run_program(void)
     oq = cmb_objectqueue_create(); cmb_objectqueue_initialize(oq, "OQ", P.oqcap < 0 ? CMB_UNLIMITED : (uint64_t)P.oqcap);
     pq = cmb_priorityqueue_create(); cmb_priorityqueue_initialize(pq, "PQ", P.pqcap < 0 ? CMB_UNLIMITED : (uint64_t)P.pqcap);
     cond = cmb_condition_create(); cmb_condition_initialize(cond, "Cond");
+    for (int i = 1; i <= P.np; i++) cwait_pred[i] = -1;
+    nsub = 0;
     for (int i = 1; i <= P.np; i++) {
         proc[i] = cmb_process_create();
         char nm[8]; snprintf(nm, sizeof nm, "P%d", i);
